@@ -190,9 +190,28 @@ pub fn parse_string(s: &str) -> Result<String, ParseSequenceError> {
     let mut chars = s.chars().enumerate();
     let res = String::with_capacity(s.len());
 
+    // A triple-quoted body may contain its own quote character unescaped, so the
+    // delimiters are taken off here and quotes inside are ordinary characters.
+    let (raw, body) = match s.strip_prefix(['r', 'R']) {
+        Some(body) => (true, body),
+        None => (false, s),
+    };
+    for (quote, delimiter) in [('\'', "'''"), ('"', "\"\"\"")] {
+        let content = body
+            .strip_prefix(delimiter)
+            .and_then(|rest| rest.strip_suffix(delimiter));
+        if let Some(content) = content {
+            if raw {
+                return Ok(content.to_string());
+            }
+            let mut chars = content.chars().enumerate();
+            return parse_quoted_string(s, &mut chars, res, quote, true);
+        }
+    }
+
     match chars.next() {
         Some((_, c)) if c == 'r' || c == 'R' => parse_raw_string(&mut chars, res),
-        Some((_, c)) if c == '\'' || c == '"' => parse_quoted_string(s, &mut chars, res, c),
+        Some((_, c)) if c == '\'' || c == '"' => parse_quoted_string(s, &mut chars, res, c, false),
         _ => Err(ParseSequenceError::MissingOpeningQuote),
     }
 }
@@ -259,11 +278,15 @@ fn parse_raw_string(
     Ok(res)
 }
 
+/// Decodes the body of a quoted literal. With `triple` unset, `chars` is positioned
+/// behind the opening quote and runs up to the closing one; with `triple` set it
+/// holds exactly the text between the triple-quote delimiters.
 fn parse_quoted_string(
     s: &str,
     mut chars: &mut Enumerate<Chars>,
     mut res: String,
     quote: char,
+    triple: bool,
 ) -> Result<String, ParseSequenceError> {
     let mut in_single_quotes = quote == '\'';
     let mut in_double_quotes = quote == '"';
@@ -339,7 +362,7 @@ fn parse_quoted_string(
                     continue;
                 }
             };
-        } else if c == '\'' {
+        } else if c == '\'' && !triple {
             if in_double_quotes {
                 res.push(c);
                 continue;
@@ -347,7 +370,7 @@ fn parse_quoted_string(
 
             in_single_quotes = !in_single_quotes;
             continue;
-        } else if c == '"' {
+        } else if c == '"' && !triple {
             if in_single_quotes {
                 res.push(c);
                 continue;
@@ -363,7 +386,7 @@ fn parse_quoted_string(
     }
 
     // Ensure string has a closing quote
-    if in_single_quotes || in_double_quotes {
+    if (in_single_quotes || in_double_quotes) && !triple {
         return Err(ParseSequenceError::MissingClosingQuote);
     }
 
